@@ -145,6 +145,12 @@ func (p *Parser) ParseBlockStatement() (*ast.BlockStatement, error) {
 		Statements: []ast.Statement{},
 	}
 
+	depth := p.depth
+	defer func() { p.depth = depth }()
+	if err := p.deepen(); err != nil {
+		return nil, errors.WithStack(err)
+	}
+
 	for !p.PeekTokenIs(token.RIGHT_BRACE) {
 		stmt, err := p.ParseStatement()
 		if err != nil {
